@@ -39,6 +39,7 @@ fn main() {
   };
   log::install_panic_hook();
   vtime::install();
+  conc::install();
   let t0 = std::time::Instant::now();
   let mut rep = Report::new();
   if !props::run(&cfg, &mut rep) {
